@@ -75,6 +75,25 @@ func c18Scenarios() []c18Scenario {
 			cm := commit.Commit{ID: commit.Next(), Chunk: 2, Updates: []*commit.Buffer{rows, nb}}
 			return []func(){func() { w.C.Replay(cm) }, readN(w.C, R0), rangeN(w.C)}, w.Close
 		}},
+		{"grow-into-new-block||filter-by-name||union-filter", func() ([]func(), func()) {
+			// as above, beside filters that fetch a column's / an index's per-block bitmap by name
+			w := model.NewWorld(model.Config{Cols: []model.ColDef{{Name: "n", Kind: "int"}, {Name: "s", Kind: "string"}, {Name: "b", Kind: "bool"}}})
+			w.C.CreateIndex("big", "n", func(r column.Reader) bool { return r.Int() > 1 })
+			w.SeedReplay(map[uint32][]model.Write{R0: {{Col: "n", V: model.Val{N: 2}}, {Col: "s", V: model.Val{S: "m"}}, {Col: "b", V: model.Val{N: 1}}}})
+			rows, nb := commit.NewBuffer(8), commit.NewBuffer(8)
+			rows.Reset("row")
+			rows.PutOperation(commit.Insert, 2*16384+5)
+			nb.Reset("n")
+			nb.PutInt(commit.Put, 2*16384+5, 9)
+			cm := commit.Commit{ID: commit.Next(), Chunk: 2, Updates: []*commit.Buffer{rows, nb}}
+			f1 := func() {
+				w.C.Query(func(txn *column.Txn) error { txn.With("n").Without("s").Count(); return nil })
+			}
+			f2 := func() {
+				w.C.Query(func(txn *column.Txn) error { txn.With("b").Union("big").WithUnion("s", "big").Count(); return nil })
+			}
+			return []func(){func() { w.C.Replay(cm) }, f1, f2}, w.Close
+		}},
 		{"grow-into-new-block||writer-block0", func() ([]func(), func()) {
 			w := model.NewWorld(model.Config{Cols: []model.ColDef{{Name: "n", Kind: "int"}, {Name: "s", Kind: "string"}}})
 			w.SeedReplay(map[uint32][]model.Write{R0: {{Col: "n", V: model.Val{N: 2}}, {Col: "s", V: model.Val{S: "m"}}}})
@@ -95,6 +114,14 @@ func c18Scenarios() []c18Scenario {
 			w.Txn([]model.Act{{Op: "bulk", N: 16384, W: []model.Write{{Col: "n", V: model.Val{N: 1}}}}}, false)
 			ins := func() { w.C.Insert(func(r column.Row) error { r.SetInt("n", 5); return nil }) }
 			return []func(){ins, readN(w.C, 7)}, w.Close
+		}},
+		{"insert-into-new-block||snapshot", func() ([]func(), func()) {
+			// block 0 is full: the insert reserves the first offset of block 1 when it is
+			// issued and grows the columns when it commits; a snapshot runs beside it
+			w := model.NewWorld(model.Config{Cols: []model.ColDef{{Name: "n", Kind: "int"}, {Name: "s", Kind: "string"}}})
+			w.Txn([]model.Act{{Op: "bulk", N: 16384, W: []model.Write{{Col: "n", V: model.Val{N: 1}}}}}, false)
+			ins := func() { w.C.Insert(func(r column.Row) error { r.SetInt("n", 5); return nil }) }
+			return []func(){ins, func() { var b bytes.Buffer; w.C.Snapshot(&b) }}, w.Close
 		}},
 		{"multi-block-writer||snapshot", func() ([]func(), func()) {
 			w := c18World(false)
@@ -221,7 +248,7 @@ func c18Units(tier string) (units []eng.Unit) {
 				}}
 		}
 		rb, pb := raceBound, plainBound
-		if sc.name == "insert-into-new-block||point-read" {
+		if sc.name == "insert-into-new-block||point-read" || sc.name == "insert-into-new-block||snapshot" {
 			rb, pb = rb-1, pb-1 // seeding 16K rows per execution is slow, above all in the race build
 		}
 		units = append(units,
@@ -235,7 +262,7 @@ func init() {
 	eng.Register(&eng.Check{
 		Prop:  "C18",
 		Level: "model_checking", NodeStates: true,
-		Rule: "SCHED over 17 scenarios mixing transactions, point reads, filtered iteration, inserts, deletes, growth into a new block, snapshots, restore into another collection, index / " +
+		Rule: "SCHED over 19 scenarios mixing transactions, point reads, filtered iteration, inserts, deletes, growth into a new block, snapshots, restore into another collection, index / " +
 			"sorted index / trigger creation and removal, keyed operations. race/* units run in the -race build with the scheduler's hand-offs hidden from the detector " +
 			"(runtime.RaceDisable), so that every explored schedule is checked against the program's own happens-before order for ALL conflicting accesses it performs; a report is " +
 			"identified by the pair of innermost kelindar/column functions. deadlock/* units run the plain build at a higher bound; a schedule after which some thread can never run is a " +
@@ -247,9 +274,9 @@ func init() {
 		Budget: budget(170*time.Second, 28*time.Minute),
 		Bounds: func(tier string) map[string]any {
 			if tier == "quick" {
-				return map[string]any{"preemption_bound_race": 2, "preemption_bound_deadlock": 2, "scenarios": 17, "note": "the 16K-row scenario runs one bound lower"}
+				return map[string]any{"preemption_bound_race": 2, "preemption_bound_deadlock": 2, "scenarios": 19, "note": "the 16K-row scenario runs one bound lower"}
 			}
-			return map[string]any{"preemption_bound_race": 3, "preemption_bound_deadlock": 4, "scenarios": 17}
+			return map[string]any{"preemption_bound_race": 3, "preemption_bound_deadlock": 4, "scenarios": 19}
 		},
 		Units: c18Units,
 	})
